@@ -270,6 +270,9 @@ def r4_skip_predicates(ctx):
                'an iteration that records a skip stores no captured stdout' if ok else 'a skipped part also stores stdout: "anything ran" and "all skipped" can both hold', anchor=RUN)
     # (b) a completed iteration without skip record stores stdout
     wit = graph.must_pass([rr.iter_entry], lambda x: x is rr.loop, through=skip + stores, efilter=graph.normal_only)
+    if wit is None:
+        # ... also when the part ended in an exception that a handler of the loop body absorbed (an expected exception)
+        wit = graph.must_pass([rr.iter_entry], lambda x: x is rr.loop, through=skip + stores)
     rep.ob('C15.R4', ctx.loc(f, rr.loop.ast), 'no skip record -> stdout stored', wit is None,
            'every completed iteration either records a skip or stores the captured stdout' if wit is None else 'an executed part may leave no trace in logged_stdout: pytest would report it as skipped',
            witness=None if wit is None else graph.fmt_path(wit, f.module.relpath), anchor=RUN)
